@@ -43,6 +43,8 @@ pub enum PayLie {
     OldLockMismatch(ScSpec),
     /// new lock differs between state and close state
     NewLockMismatch(ScSpec),
+    /// the close state carries another customer (true) / merchant (false) balance than the new state
+    CloseBalanceMismatch(bool, ScSpec),
     /// token signed under another merchant's key
     TokenOtherKey,
     /// token with sigma2 shifted (not a valid signature)
@@ -65,6 +67,7 @@ impl PayLie {
             PayLie::TagReplaced(w, _) => format!("close-tag-replaced/{}", ["fresh-nonce", "zero", "random"][*w as usize % 3]),
             PayLie::OldLockMismatch(_) => "old-lock-mismatch".into(),
             PayLie::NewLockMismatch(_) => "new-lock-mismatch".into(),
+            PayLie::CloseBalanceMismatch(c, _) => format!("close-state-{}-balance-differs", if *c { "customer" } else { "merchant" }),
             PayLie::TokenOtherKey => "token-of-other-key".into(),
             PayLie::TokenShifted(_) => "token-tampered".into(),
             PayLie::TokenForOtherState(..) => "token-for-other-state".into(),
@@ -113,6 +116,7 @@ fn lie_strategy() -> impl Strategy<Value = PayLie> {
         3 => (0u8..3, any::<u64>()).prop_map(|(w, s)| PayLie::TagReplaced(w, s)),
         2 => delta_spec().prop_map(PayLie::OldLockMismatch),
         2 => delta_spec().prop_map(PayLie::NewLockMismatch),
+        3 => (any::<bool>(), delta_spec()).prop_map(|(a, d)| PayLie::CloseBalanceMismatch(a, d)),
         1 => Just(PayLie::TokenOtherKey),
         1 => delta_spec().prop_map(PayLie::TokenShifted),
         2 => (any::<bool>(), delta_spec()).prop_map(|(a, d)| PayLie::TokenForOtherState(a, d)),
@@ -141,8 +145,30 @@ fn strat_strategy() -> impl Strategy<Value = PayStrategy> {
     ]
 }
 
+/// The sub-proof a lie is "about": a post-challenge choice on that sub-proof is the strategy with
+/// the best chance, so half of the attempts aim there.
+fn natural_field(lie: &PayLie, alt: bool) -> Option<PayField> {
+    Some(match lie {
+        PayLie::None => return None,
+        PayLie::WrongNonce(_) | PayLie::TokenOtherKey | PayLie::TokenShifted(_) | PayLie::TokenForOtherState(..) => PayField::Token,
+        PayLie::OldLockMismatch(_) => if alt { PayField::Token } else { PayField::RevLock },
+        PayLie::TagReplaced(..) | PayLie::NewLockMismatch(_) | PayLie::CloseBalanceMismatch(..) => PayField::Close,
+        PayLie::ForeignCid(w, _) => if w % 3 == 2 { PayField::Close } else { PayField::State },
+        PayLie::AmountOneSide(_) | PayLie::AmountOff(..) | PayLie::SignFlipped => if alt { PayField::Token } else { PayField::State },
+        PayLie::Overdraw(k) => if alt { PayField::State } else { PayField::CbDigit(*k) },
+        PayLie::MerchantOverdraw(k) => if alt { PayField::State } else { PayField::MbDigit(*k) },
+    })
+}
+
 fn strategy(t: Tier) -> impl Strategy<Value = Case> {
-    (0u8..t.pick(4, 12), amt_sel(), lie_strategy(), strat_strategy(), any::<u64>()).prop_map(|(source, amount, lie, strategy, seed)| Case { source, amount, lie, strategy, seed })
+    (0u8..t.pick(4, 12), amt_sel(), lie_strategy(), strat_strategy(), any::<bool>(), any::<bool>(), any::<u64>()).prop_map(|(source, amount, lie, strategy, matched, alt, seed)| {
+        let strategy = match (&strategy, matched, natural_field(&lie, alt)) {
+            (PayStrategy::TLast(_, fr), true, Some(f)) => PayStrategy::TLast(f, *fr),
+            (PayStrategy::CLast(_, fr), true, Some(f)) => PayStrategy::CLast(f, *fr),
+            _ => strategy,
+        };
+        Case { source, amount, lie, strategy, seed }
+    })
 }
 
 /// A pay-token source: a Ready state reached by an honest history.
@@ -314,6 +340,7 @@ fn oracle(c: &Case, rec: &Rec) -> R {
         }
         PayLie::OldLockMismatch(d) => revoked += nonzero(d),
         PayLie::NewLockMismatch(d) => l_close += nonzero(d),
+        PayLie::CloseBalanceMismatch(..) => {} // applied to the close-state message below
         PayLie::TokenOtherKey => {
             let other = proto::merchant(m.seed + 500);
             let hh = G1Projective::from(other.pk.g1) * rand_nonzero_scalar(c.seed ^ 0x31);
@@ -360,7 +387,11 @@ fn oracle(c: &Case, rec: &Rec) -> R {
         old: old_claim,
         token,
         state: [cid_state, n_new, l_new, s_cb, s_mb],
-        close: [cid_close, tag, l_close, s_cb, s_mb],
+        close: match &c.lie {
+            PayLie::CloseBalanceMismatch(true, d) => [cid_close, tag, l_close, s_cb + nonzero(d), s_mb],
+            PayLie::CloseBalanceMismatch(false, d) => [cid_close, tag, l_close, s_cb, s_mb + nonzero(d)],
+            _ => [cid_close, tag, l_close, s_cb, s_mb],
+        },
         revoked_lock: revoked,
         cb_digits,
         mb_digits,
